@@ -264,10 +264,16 @@ func rulesC06(w *World, r *Report) {
 	r.Rule("C06.R4", "file length: Header.Size = metaSize + archiveCount*archiveInfoListSize; ExpectedFileSize = Size() + sum over all archives of points*pointSize, in int64", 2)
 	if sz := need(w, r, "C06.R4", w.Lib, "Header.Size"); sz != nil {
 		rets := returnsOf(sz)
-		ok := len(rets) == 1 && newExprCtx(w).expr(rets[0].Results[0]) == "(16 +:int64 (p0.archiveCount *:int64 12))"
 		got := ""
 		if len(rets) == 1 {
 			got = newExprCtx(w).expr(rets[0].Results[0])
+		}
+		// sums and products in either operand order
+		ok := false
+		for _, form := range []string{"(16 +:int64 (p0.archiveCount *:int64 12))", "(16 +:int64 (12 *:int64 p0.archiveCount))", "((p0.archiveCount *:int64 12) +:int64 16)", "((12 *:int64 p0.archiveCount) +:int64 16)"} {
+			if got == form {
+				ok = true
+			}
 		}
 		r.Check(ok, "C06.R4", "Header.Size", w.pos(sz.Pos()), "16 + 12*archiveCount", "Header.Size is "+got+", not 16 + 12*archiveCount")
 	}
@@ -284,7 +290,9 @@ func rulesC06(w *World, r *Report) {
 						okInit = true
 					}
 					if bo, isBo := e.(*ssa.BinOp); isBo && bo.Op == token.ADD && bo.X == ssa.Value(ph) {
-						if regexp.MustCompile(`^\(p0\.archiveInfoList\[\(i\d+ \+ 1\)\]\.` + regexp.QuoteMeta(ptsF) + ` \*:int64 12\)$`).MatchString(newExprCtx(w).expr(bo.Y)) {
+						y := newExprCtx(w).expr(bo.Y)
+						if regexp.MustCompile(`^\(p0\.archiveInfoList\[\(i\d+ \+ 1\)\]\.`+regexp.QuoteMeta(ptsF)+` \*:int64 12\)$`).MatchString(y) ||
+							regexp.MustCompile(`^\(12 \*:int64 p0\.archiveInfoList\[\(i\d+ \+ 1\)\]\.`+regexp.QuoteMeta(ptsF)+`\)$`).MatchString(y) {
 							okNext = true
 						}
 					}
@@ -410,6 +418,51 @@ func rulesC06(w *World, r *Report) {
 					}
 				}
 				ok = hasRead && hasFirst
+				// ... and only an empty archive does: the first point replaces the stored base on the outcome
+				// `base == 0` and on no other (a base that merely looks old is still the phase of every live slot)
+				for i, e := range ph.Edges {
+					es0 := newExprCtx(w).expr(e)
+					if !(strings.HasSuffix(es0, "[0].Time") && strings.Contains(es0, "alignPoints(")) {
+						continue
+					}
+					pred := ph.Block().Preds[i]
+					onlyEmpty := false
+					for _, b := range au.Blocks {
+						if len(b.Instrs) == 0 {
+							continue
+						}
+						iff, isIf := b.Instrs[len(b.Instrs)-1].(*ssa.If)
+						if !isIf {
+							continue
+						}
+						cond, neg := stripNot(iff.Cond)
+						bo, isBo := cond.(*ssa.BinOp)
+						if !isBo || (bo.Op != token.EQL && bo.Op != token.NEQ) {
+							continue
+						}
+						xs, ys := newExprCtx(w).expr(bo.X), newExprCtx(w).expr(bo.Y)
+						isBase := func(s string) bool {
+							return strings.HasPrefix(s, "whispertool.Whisper.baseInterval(p0, ") && strings.HasSuffix(s, "#0")
+						}
+						if !((isBase(xs) && ys == "0") || (isBase(ys) && xs == "0")) {
+							continue
+						}
+						emptyEdge := 0
+						if (bo.Op == token.NEQ) != neg {
+							emptyEdge = 1
+						}
+						if b == pred && ph.Block() == b.Succs[emptyEdge] && b.Succs[0] != b.Succs[1] {
+							onlyEmpty = true
+						}
+						if edgeDominates(b, b.Succs[emptyEdge], pred) {
+							onlyEmpty = true
+						}
+					}
+					if !onlyEmpty {
+						ok = false
+						got = "replaced by the first point of the batch also when the stored base is not 0"
+					}
+				}
 			}
 		}
 		r.Check(ok, "C06.R6", "archiveUpdateMany:base", w.pos(au.Pos()), "an empty archive takes its first aligned point as base (slot 0)", "archiveUpdateMany's base interval is "+got+": for an empty archive the first written point must become the base so that it lands in slot 0")
